@@ -7,6 +7,7 @@
   and every address the allocator may return (`Fresh`).
 -/
 import YaraModel.Lemmas.ArenaExample
+import YaraModel.Lemmas.ArenaGrow
 import YaraModel.Lemmas.ArenaSeq
 namespace YaraModel.Arena
 open YaraModel.Gen.ArenaLayout
